@@ -30,6 +30,7 @@ static void WriterCS(unsigned id) {
   if (++g_w_in != 1) g_bad_ww = 1;
   if (g_r_in != 0) g_bad_rw = 1;
   g_cs_exec[id] = vp::vp_cur_exec_id;
+  vp_hb_write(0);                               // C04 ghost: the protected data; consecutive critical sections must be ordered by happens-before
   unsigned seen = g_plain; g_plain = seen + 1;
   vp_sync_point();                              // another unit may run while this holder is inside
   if (g_plain != seen + 1) g_plain_bad = 1;     // nobody else may have been inside meanwhile
@@ -38,6 +39,7 @@ static void WriterCS(unsigned id) {
 static void ReaderCS(unsigned id) {
   ++g_r_in;
   if (g_w_in != 0) g_bad_rw = 1;
+  vp_hb_read(0);
   unsigned seen = g_plain;
   vp_sync_point();
   if (g_plain != seen) g_plain_bad = 1;         // no writer may have been inside while a reader is
